@@ -389,7 +389,11 @@ def showItv (I : Itv) : String :=
   let l := match I.lo with | none => "-inf" | some q => showRat q
   let u := match I.hi with | none => "+inf" | some q => showRat q
   s!"{l}:{if I.lo.isSome && I.loOpen then 1 else 0}:{u}:{if I.hi.isSome && I.hiOpen then 1 else 0}"
-def showSeq (b : BoxM) : String := if b.isEmpty then "-" else ";".intercalate (b.map showItv)
+/-- (`b.isEmpty` would resolve to `BoxM.isEmpty` — "some interval is empty" — not to `List.isEmpty`) -/
+def showSeq (b : BoxM) : String :=
+  match b with
+  | [] => "-"
+  | _ => ";".intercalate (b.map showItv)
 
 /-- the flags of infinite boundaries carry no information -/
 def normItv (I : Itv) : Itv := ⟨I.lo, I.lo.isSome && I.loOpen, I.hi, I.hi.isSome && I.hiOpen⟩
@@ -428,6 +432,10 @@ def handleBox (id : String) (op : String) (n : Nat) (t : Array String) : Out := 
   | some l => if t[22]! != "-" && showSeq l != t[22]! then diffs := s!"lim:model={showSeq l},real={t[22]!}" :: diffs
   | none => pure ()
   o := o.chk id "model" diffs.isEmpty ("|".intercalate diffs)
+  if !xf.e && BoxM.isEmpty xs then o := o.tag id s!"box-receiver-undetected-empty-{op}"
+  match mlim with
+  | some l => if BoxM.isEmpty l then o := o.tag id "limiting-box-with-empty-interval"
+  | none => pure ()
   if n == 0 || op == "getlim" then return o
   let r : BoxS := ⟨rs, rf.e⟩
   let tok := match tp with | some k => k > 0 | none => false
